@@ -178,7 +178,8 @@ def src(t, ch, parent=0, right=False, stats=None):
         if stats is not None:
             stats["required_paren"] = stats.get("required_paren", 0) + 1
         s = "(" + s + ")"
-    elif k not in ("atom", "func") and ch.chance(1, 6):
+    elif (k not in ("atom", "func") and ch.chance(1, 6)) or (k in ("atom", "func") and parent > 0 and ch.chance(1, 12)):
+        # (an operand in parentheses of its own - `[a] + (1) > 2` - as well)
         if stats is not None:
             stats["redundant_paren"] = stats.get("redundant_paren", 0) + 1
         s = ch.choice(["(", "( "]) + s + ch.choice([")", " )"])
